@@ -6,7 +6,7 @@ import ast
 from typing import Dict, List
 
 from ..context import Ctx
-from ..kernel import expand, placeholder_closure, xshow
+from ..kernel import expand1, expand, placeholder_closure, xshow
 from ..loader import AnalysisError, norm_stmt
 from ..paths import show
 from ..resolve import own_nodes
@@ -186,6 +186,92 @@ def rule_steps(ctx: Ctx):
                   f"self._register_callbacks({reg_arg}) validates before add_listener re-attaches the listeners")
 
 
+def rule_attach(ctx: Ctx):
+    """C17.attach: the clone re-attaches providers in the passes the original used.
+
+    Callbacks of one group with equal priority run in attachment order.  The constructor attaches machine, model and the
+    constructor-time listeners in ONE pass (spec by spec: every provider of a spec before the next spec); `add_listener`
+    attaches late listeners in a LATER pass of their own.  A restore that uses one kind of pass for all saved listeners
+    reproduces the order of only one of the two histories."""
+    rep = ctx.rep
+    init = ctx.fn("StateMachine.__init__")
+    ss = ctx.fn("StateMachine.__setstate__")
+    al = ctx.fn("StateMachine.add_listener")
+
+    def passes(fn):
+        joint, separate = {}, {}
+        for p in ctx.paths(fn, inline=None, exc_edges="none"):
+            if p.kind == "raise":
+                continue
+            for e in p.calls():
+                f = show(e.term.func)
+                if f == "self._register_callbacks":
+                    arg = xshow(e.term.args[0], p.events) if e.term.args else "[]"
+                    if arg not in ("[]", "()", "list()", "tuple()"):
+                        joint.setdefault(id(e.node), (e, arg, expand1(e.term.args[0], p.events)))
+                elif f in ("self.add_listener", "self._add_listener"):
+                    separate.setdefault(id(e.node), (e, ", ".join(xshow(a_, p.events) for a_ in e.term.args),
+                                                     expand1(e.term.args[0], p.events) if e.term.args else None))
+        return list(joint.values()), list(separate.values())
+
+    ij, isep = passes(init)
+    rep.check(bool(ij) and not isep, "C17.attach", init.loc(), "the constructor attaches its listeners in the same pass as machine and model", init.key,
+              f"joint: {[x[1] for x in ij]} separate: {[x[1] for x in isep]}")
+    late_api = any(show(e.term.func) == "self._add_listener" for p in ctx.paths(al, inline=None, exc_edges="none") for e in p.calls())
+    rep.check(late_api, "C17.attach", al.loc(), "add_listener attaches late listeners in a pass of their own", al.key, "no self._add_listener call")
+    sj, ssep = passes(ss)
+    if not sj and not ssep:
+        rep.violation("C17.attach", ss.loc(), "restore does not re-attach the saved listeners", ss.key, "no _register_callbacks(listeners) / add_listener call")
+        return
+    if sj and ssep:
+        # both kinds of pass: they must select by what the attach sites recorded (a filter on the saved record)
+        def filt(t):
+            if isinstance(t, ast.Starred):
+                t = t.value
+            if isinstance(t, (ast.ListComp, ast.GeneratorExp, ast.SetComp)) and t.generators[0].ifs and ".items()" in show(t.generators[0].iter):
+                return " and ".join(show(c) for c in t.generators[0].ifs)
+            return None
+
+        for p in ctx.paths(ss, inline=None, exc_edges="none"):
+            reg = [e.idx for e in p.calls() if show(e.term.func) == "self._register_callbacks"]
+            late_ = [e.idx for e in p.calls() if show(e.term.func) in ("self.add_listener", "self._add_listener")]
+            if reg and late_ and min(late_) < max(reg):
+                rep.violation("C17.attach", ss.loc(), "restore replays a late pass before the constructor pass", ss.key,
+                              "add_listener precedes _register_callbacks")
+                break
+        fj, fs = filt(sj[0][2]), filt(ssep[0][2])
+        rep.check(fj is not None and fs is not None and fj != fs, "C17.attach", ss.loc(),
+                  "constructor-time and late listeners are restored by their own kind of pass, selected by the recorded attachment pass", ss.key,
+                  f"joint pass over [{sj[0][1]}], separate pass over [{ssep[0][1]}]")
+        # the attach sites must record different marks for the two kinds
+        marks = {}
+        for fn_ in (ctx.fn("StateMachine._register_callbacks"), al):
+            for p in ctx.paths(fn_, inline=None, exc_edges="none", unroll=1):
+                for e in p.calls():
+                    f = e.term.func
+                    if isinstance(f, ast.Attribute) and show(f.value) == "self._listeners" and f.attr in ("update", "setdefault"):
+                        a0 = expand1(e.term.args[-1], p.events) if e.term.args else None
+                        v = a0.value if isinstance(a0, ast.DictComp) else a0
+                        marks.setdefault(fn_.name, set()).add(xshow(v, p.events) if v is not None else "?")
+                for e in p.of("store"):
+                    if e.x.get("subscript") and show(e.term.value) == "self._listeners":
+                        marks.setdefault(fn_.name, set()).add(xshow(e.x["value"], p.events))
+        a_, b_ = marks.get("_register_callbacks", set()), marks.get("add_listener", set())
+        rep.check(bool(a_) and bool(b_) and not (a_ & b_), "C17.attach", al.loc(), "constructor-time and late listeners are recorded with different marks",
+                  al.key, f"constructor pass records {sorted(a_)}, add_listener records {sorted(b_)}")
+        return
+    if ssep:
+        e, arg = ssep[0][:2]
+        rep.violation("C17.attach", e.loc(), "restore re-attaches every saved listener in a later pass of its own: a clone of a machine built with "
+                      "`listeners=[...]` runs equal-priority callbacks in another order than the original (machine's first, then the listener's, "
+                      "instead of spec by spec)", ss.key, norm_stmt(e.node))
+    else:
+        e, arg = sj[0][:2]
+        rep.violation("C17.attach", e.loc(), "restore re-attaches every saved listener in the same pass as machine and model: a clone of a machine whose "
+                      "listener was attached later with add_listener() runs equal-priority callbacks in another order than the original", ss.key,
+                      norm_stmt(e.node))
+
+
 def rule_restart_guard(ctx: Ctx):
     """C17.steps: `start()` on the restored machine must leave a stored state alone whatever its value (None-test)."""
     from . import c11
@@ -193,4 +279,4 @@ def rule_restart_guard(ctx: Ctx):
     c11.rule_guard(ctx, rule="C17.steps")
 
 
-RULES = [rule_carry, rule_excluded, rule_steps, rule_restart_guard]
+RULES = [rule_carry, rule_excluded, rule_steps, rule_attach, rule_restart_guard]
